@@ -18,12 +18,16 @@ RULE = ('files are generated from a JSON model (modules, free routines, internal
         'bindings, interfaces, call targets of Sourcefile.from_source(REGEX) == those of from_source(FP). Oracle 2: for a generated '
         'history (initial parser classes incl. ProgramUnitClass, then make_complete(REGEX, classes) on the file or on a unit), after '
         'every step the facts of every class in the union requested for a scope (itself or an ancestor) equal the one-shot facts; two '
-        'orders of the same requests are run. non-trivial = >=2 units, a layout perturbation touches a statement that carries a '
-        'compared fact, and two different request orders were run; distinct by hash of the case')
+        'orders of the same requests are run; for a quarter of the cases make_complete(FP) ends the history and must give the FP '
+        'facts. Triggers of the listed findings (named generator/layout flags, see EXCLUDED and gen.LAYOUT_TRIGGERS) are never drawn; '
+        'a failure on a case that contains one is named after it (":trigger=<flag>"). non-trivial = >=2 units, a layout perturbation '
+        'touches a statement that carries a compared fact, and two different request orders were run; distinct by hash of the case')
 ASSUMPTIONS = ['generated files are valid Fortran (python -m lokiverif.unitsrc.selftest compiles them with gfortran -std=f2008)',
                'the FP frontend is the reference; a file the FP frontend rejects is counted as rejected, not as a violation',
-               'the first request of every history contains ProgramUnitClass (as every caller in loki does); only the classes the '
-               'statement lists are compared (declarations and pragmas are not)']
+               'the first request of every history contains ProgramUnitClass (as every caller in loki does; the repository tests '
+               'document that a class requested before the enclosing unit is known has no effect); only the classes the '
+               'statement lists are compared (declarations and pragmas are not)',
+               'the REGEX frontend time-out is set to 15 s (loki default 30 s); a time-out is reported as a violation']
 SHARDS = {'quick': 8, 'thorough': 16}
 BUDGET = {'quick': 75, 'thorough': 1500}
 
@@ -192,8 +196,10 @@ def triggers(model, layout, rendered):
         out.add('endjoin_iface')
     if layout.get('end_gap'):
         out.add('end_gap')
-    if layout.get('quotecomment'):
-        out.add('quotecomment')
+    if layout.get('bind_kw_nocolon') and not layout.get('dcolon', True) and any(
+            pr[0] == 'proc' and not pr[2] and not pr[3] and not pr[4] and ('function' in pr[1] or 'subroutine' in pr[1])
+            for u in mods for t in u['types'] for pr in t['procs']):
+        out.add('bind_kw_nocolon')
     return sorted(out)
 
 
@@ -372,10 +378,9 @@ def check_case(case, ctx):
 
 
 @st.composite
-def cases(draw, prof=None, quote_comments=False):
+def cases(draw, prof=None):
     model = draw(gen.files(prof or PROFILE))
     layout = draw(gen.layouts())
-    layout['quotecomment'] = bool(quote_comments and layout.get('conttrail'))
     nsteps = draw(st.sampled_from([0, 1, 2, 2, 3, 3, 4, 5]))
     hist = {
         'init': draw(st.lists(st.integers(0, 6), max_size=3)),
@@ -393,7 +398,10 @@ def run_shard(ctx):
         for k in list(EXCLUDED) + gen.LAYOUT_TRIGGERS + ['nested_then_ancestor']:
             ctx_.exclude(f'trigger {k} of a listed finding is never drawn (cases generated without it)')
         check_case(case, ctx_)
-    ctx.given(cases(PROFILE), counted, ctx.scale(1500, 30000))
+    prof = PROFILE
+    if ctx.thorough:
+        prof = dict(PROFILE, max_modules=3, max_free=3, max_routines=3, max_stmts=6)
+    ctx.given(cases(prof), counted, ctx.scale(1500, 30000))
 
 
 def replay(case, ctx):
